@@ -263,6 +263,8 @@ var dictionary = []string{
 	" \t\n", "\n \n", "((((((((((", "))))))))))", "1e999", "-", "'", "\"", "<clade>", "</clade>", "<phylogeny>", "</phylogeny>",
 	"<name></name>", "<branch_length>x</branch_length>", "{\"children\":[", "]}", "{}", "null", "\"v2\"", "\"version\":\"v1\"",
 	"[&", "::", ":;", ",,", "();", "(,);", "(A);", "((A,B));", ";;", "\xff", "\xc3", " ; ", "\t;", "=;", "[[", "]]",
+	// blanks other than space, tab, CR, LF: a label or a line may consist of nothing else
+	"\u00a0", "\f", "\v", "\u2003", "\u0085", "\u3000", ")\u00a0", ")\f:", ";\t", ";\t\n", "; \t",
 }
 
 // Mutation is one byte-level edit, interpreted relative to the current document.
